@@ -99,6 +99,8 @@ pub fn run(tier: Tier, seed: u64) -> i32 {
         let b_pub_le = b_pub.to_le_padded::<32>();
         // targeted A values for this (v, b): A = N-1, 1, and v^-1 style values
         let mut a_list = keys.clone();
+        a_list.push(b_pub_le); // reflection: the client sends back the server's own public key
+        a_list.push(b_pub.add(&U::from_u64(1)).rem(&n).to_le_padded::<32>());
         a_list.push(vv.rem(&n).inv_prime(&n).to_le_padded::<32>());
         a_list.push(U::submod(&n, &vv.rem(&n).inv_prime(&n), &n).to_le_padded::<32>());
         for a_pub in &a_list {
